@@ -138,13 +138,32 @@ def _outcome(b, events, kind):
         if len(emitted) < 3 or not (U.has_field(emitted[0], "parent_coin_info") and U.has_field(emitted[1], "puzzle_hash")):
             return None
         emitted = emitted[2:]
+    # alternative layout: one 9-byte buffer `[0; 9]` whose bytes 1.. are overwritten with the big-endian amount (the sign byte
+    # and the value in one array); a suffix buf[k..] of it is the same byte string as `0x00 ++ be` from position k
+    zbuf = None
+    for e in P.calls(events):
+        _, bb, name, args, dest, ct = e
+        if U.flat(name).endswith("copy_from_slice") and len(args) == 2:
+            dst, src = strip_all(args[0]), strip_all(args[1])
+            if src[0] == "cast":
+                src = strip_all(src[1])
+            if _is_be(src) and dst[0] == "call" and "index_mut" in dst[1] and len(dst[2]) == 2:
+                base, rng = strip_all(dst[2][0]), strip_all(dst[2][1])
+                if base[0] == "repeat" and base[1][0] == "c" and base[1][2] == 0 and str(base[2]) == "9" and \
+                        rng[0] == "agg" and "RangeFrom" in str(rng[1]) and rng[3][0][0] == "c" and rng[3][0][2] == 1:
+                    zbuf = base
     total = 0
     for t in emitted:
-        n = _bytes_len(t)
+        n = _bytes_len(t, zbuf)
         if n is None:
             return None
         total += n
     return total
+
+
+def _has_other_array(base, zbuf):
+    return any(isinstance(x, tuple) and x and x[0] in ("repeat", "agg") and x != zbuf and (x[0] == "repeat" or x[1] == "array")
+               for x in subterms(base))
 
 
 def _is_be(t):
@@ -152,9 +171,15 @@ def _is_be(t):
         t[2][0] == ("arg", 0, "val") or (strip_all(t[2][0])[0] == "f" and strip_all(t[2][0])[2] == "amount"))
 
 
-def _bytes_len(t):
+def _bytes_len(t, zbuf=None):
     """length of an emitted operand: literal bytes, the 8 big-endian bytes, or a suffix be[k..]"""
     t = strip_all(t)
+    if zbuf is not None and t[0] == "call" and "index" in t[1] and len(t[2]) == 2:
+        base, rng = strip_all(t[2][0]), strip_all(t[2][1])
+        if zbuf in list(subterms(base)) and not _has_other_array(base, zbuf) and rng[0] == "agg" and "RangeFrom" in str(rng[1]):
+            k = rng[3][0]
+            if k[0] == "c" and 0 <= k[2] <= 9:
+                return 9 - k[2]
     if t[0] == "c" and t[1] == "u8":
         return 1 if t[2] == 0 else None       # only the 0x00 sign byte is a legal literal
     if t[0] == "agg" and t[1] == "array" and all(x[0] == "c" and x[2] == 0 for x in t[3]):
